@@ -26,6 +26,10 @@ from pbt.core import Violation, HarnessError, Ctx  # noqa: E402
 WATCHDOG_S = {"quick": 15 * 60, "thorough": 60 * 60}
 MAX_SAMPLES = 3
 HEALTH_SCALE = 0.5
+# per-property multiplier of the per-shard thorough budgets declared in the modules, chosen from measured wall times so
+# that every thorough check takes roughly 4-8 minutes on 16 cores (enumerations are complete and do not scale)
+THOROUGH_MULT = {"C01": 2.0, "C03": 1.5, "C04": 4.0, "C05": 4.0, "C06": 1.5, "C07": 2.0, "C08": 5.0, "C09": 4.0, "C10": 3.0,
+                 "C11": 4.0, "C12": 3.0, "C13": 4.0, "C14": 2.0, "C15": 4.0, "C16": 3.0, "C17": 2.5, "C18": 3.0, "C19": 3.0}
 
 
 def load_known(prop):
@@ -372,7 +376,7 @@ def main(argv=None):
             n = max(1, int(cl.quick * args.scale))
         else:
             nshards = cl.shards
-            n = max(1, int(cl.thorough * args.scale))
+            n = max(1, int(cl.thorough * args.scale * THOROUGH_MULT.get(prop, 1.0)))
         for sh in range(nshards):
             tasks.append((prop, cl.name, sh, nshards, n, core.derive_seed(seed, prop, cl.name, sh), tier, kf_open))
     procs = args.procs or (int(os.environ.get("VERIF_PROCS", "0")) or (16 if tier == "thorough" else 8))
